@@ -791,6 +791,13 @@ skipRule:
 				}
 
 				if rule.Data.Equal(current.data, check) {
+					// Cascade layers are ordered by when they are first declared, so
+					// dropping an earlier duplicate "@layer" block could reorder the
+					// layers. Keep a "@layer name;" statement in its place.
+					if layer, ok := layerStatementForDuplicateBlock(rule); ok {
+						start--
+						rules[start] = layer
+					}
 					continue skipRule
 				}
 			}
@@ -806,6 +813,23 @@ skipRule:
 	}
 
 	return rules[start:]
+}
+
+// This returns a "@layer name;" statement for a named "@layer" rule. The
+// original rule is not modified since ASTs are immutable at this point.
+func layerStatementForDuplicateBlock(rule css_ast.Rule) (css_ast.Rule, bool) {
+	switch r := rule.Data.(type) {
+	case *css_ast.RAtLayer:
+		if len(r.Names) > 0 {
+			return css_ast.Rule{Loc: rule.Loc, Data: &css_ast.RAtLayer{Names: r.Names}}, true
+		}
+
+	case *css_ast.RKnownAt:
+		if r.AtToken == "layer" && len(r.Prelude) > 0 {
+			return css_ast.Rule{Loc: rule.Loc, Data: &css_ast.RKnownAt{AtToken: r.AtToken, Prelude: r.Prelude}}, true
+		}
+	}
+	return css_ast.Rule{}, false
 }
 
 func containsDeadSelectors(selectors []css_ast.CompoundSelector) bool {
